@@ -2481,13 +2481,17 @@ def convert_ops_to_lut(op: Operation, arch, nng) -> Operation:
         name = "exp"
     elif op.type == Op.Log:
         def log(value):
-            if (value == 0):
+            # The quantised input range can include zero and negative values: saturate to the lowest output value
+            if (value <= 0):
                 value = sys.float_info.min
             return math.log(value)
         func = log
         name = "log"
     elif op.type == Op.Sqrt:
-        func = math.sqrt
+        def sqrt(value):
+            # The quantised input range can include negative values, for which the result is undefined
+            return math.sqrt(max(value, 0.0))
+        func = sqrt
         name = "sqrt"
     elif op.type == Op.Gelu:
         def gelu(x):
